@@ -249,12 +249,50 @@ func TestC10Endpoints(t *testing.T) {
 }
 
 func TestC10Tenants(t *testing.T) {
-	vlib.SetRule("C10", "TestC10Tenants", "one real node whose upstream port has 0-3 tenants with distinct HMAC keys and an optional default key; listeners connect with every pairing of (token signed by the default key / by tenant i's key / by an unknown key, with drawn endpoint claims) and (no tenant header / tenant j / an unknown tenant); oracle: accepted iff no tenants are configured, no tenant is named and the default key signed the token, or the named tenant exists and its key signed the token - and the endpoint is permitted; everything else is refused with 401 and registers nothing; non-trivial = a cross-tenant pairing or the default key's token when tenants exist")
+	vlib.SetRule("C10", "TestC10Tenants", "one real node whose upstream port has 0-3 tenants with distinct HMAC keys and an optional default key (in a sixth of the multi-tenant cases the tenants' keys cannot be loaded: the node either refuses to start or refuses every listener); listeners connect with every pairing of (token signed by the default key / by tenant i's key / by an unknown key, with drawn endpoint claims) and (no tenant header / tenant j / an unknown tenant); oracle: accepted iff no tenants are configured, no tenant is named and the default key signed the token, or the named tenant exists and its key signed the token - and the endpoint is permitted; everything else is refused with 401 and registers nothing; non-trivial = a cross-tenant pairing or the default key's token when tenants exist")
 	vlib.Run(t, "C10", func(c *vlib.Case) {
 		nT := c.Int("tenants", 0, 3)
 		hasDefault := c.Bool("defaultKey") || nT == 0
 		tenantKey := func(i int) []byte { return []byte(fmt.Sprintf("tenant-key-%d-0123456789abcdef0123", i)) }
 		defKey := []byte("default-key-0123456789abcdef01234567")
+		// a tenant table whose keys cannot be loaded (a damaged PEM, a missing JWKS
+		// file): the node must not come up serving the default key to everybody
+		if nT > 0 && c.Chance("unloadableTenantKeys", 1, 6) {
+			c.Class("unloadable-tenant-keys")
+			cl, err := StartCluster(1, false, func(i int, conf *config.Config) {
+				if hasDefault {
+					conf.Upstream.Auth = auth.Config{HMACSecretKey: string(defKey)}
+				}
+				for j := 0; j < nT; j++ {
+					bad := auth.Config{RSAPublicKey: "-----BEGIN PUBLIC KEY-----\nnot a key\n-----END PUBLIC KEY-----"}
+					if c.Bool("missingJWKS") {
+						bad = auth.Config{}
+						bad.JWKS.Endpoint = "file:///nonexistent/verif-jwks.json"
+					}
+					conf.Upstream.Tenants = append(conf.Upstream.Tenants, config.TenantConfig{ID: fmt.Sprintf("t%d", j), Auth: bad})
+				}
+			})
+			if err != nil {
+				c.Stepf("%d tenants with unloadable keys: the node refuses to start (%v)", nT, err)
+				c.NonTrivial()
+				return
+			}
+			defer cl.Stop()
+			pu, _ := url.Parse("http://" + cl.Nodes[0].UpstreamAddr())
+			for _, tenant := range []string{"", "t0"} {
+				for _, key := range [][]byte{defKey, {}} {
+					ctx, cancel := context.WithTimeout(context.Background(), Deadline())
+					ln, err := (&client.Upstream{URL: pu, Token: MintHS(key, nil, time.Time{}), TenantID: tenant}).Listen(ctx, "e1")
+					cancel()
+					if err == nil {
+						_ = ln.Shutdown()
+						c.Fatalf("C10: %d tenants are configured (their keys cannot be loaded); the node started anyway and accepted a listener naming tenant %q with a token signed by the %s key", nT, tenant, map[bool]string{true: "default", false: "empty"}[len(key) > 0])
+					}
+				}
+			}
+			c.NonTrivial()
+			return
+		}
 		cl, err := StartCluster(1, false, func(i int, conf *config.Config) {
 			if hasDefault {
 				conf.Upstream.Auth = auth.Config{HMACSecretKey: string(defKey)}
